@@ -190,7 +190,56 @@ def check_soup(case):
         if out != text:
             fails.append(('soup-changed', '%s(%r)() == %r' % (
                 cls.__name__, text, out)))
+        # the same through the other ways a source reaches a template:
+        # munge() of an existing template, and a file-based template whose
+        # file is rewritten and re-read
+        try:
+            t = cls('first source &dtml')
+            t()
+            t.munge(text)
+            out2 = t()
+            t.munge('other')
+            t.munge(text)
+            out3 = t()
+        except Exception as e:
+            out2 = out3 = repr(e)
+        if out2 != text or out3 != text:
+            fails.append(('soup-changed:munge', 'munge(%r) renders %r / %r' % (
+                text, out2, out3)))
+        fails.extend(_file_soup(cls_name, text))
     return fails, checked > 0 and bool(NEAR.search(text))
+
+
+def _file_soup(cls_name, text):
+    import os
+    import tempfile
+    from DocumentTemplate import File, HTMLFile
+    try:
+        text.encode('utf-8')
+    except UnicodeError:
+        return []
+    if '\r' in text:
+        return []           # files are read in text mode (newline translation)
+    fd, path = tempfile.mkstemp(suffix='.dtml')
+    os.close(fd)
+    try:
+        with open(path, 'w', encoding='utf-8') as f:
+            f.write('earlier content of the file')
+        t = (HTMLFile if cls_name == 'H' else File)(path)
+        first = t()
+        with open(path, 'w', encoding='utf-8') as f:
+            f.write(text)
+        t.cook()
+        out = t()
+    except Exception as e:
+        first, out = 'earlier content of the file', repr(e)
+    finally:
+        os.unlink(path)
+    if first != 'earlier content of the file' or out != text:
+        return [('soup-changed:file', 'file template: first %r, after the '
+                 'file was rewritten with %r and re-read: %r' % (
+                     first, text, out))]
+    return []
 
 
 def ends_with_block_tag(toks):
